@@ -108,7 +108,16 @@ static long gcdl(long a, long b) { a = a < 0 ? -a : a; b = b < 0 ? -b : b; while
 
 // gcd of two terms, both known non-zero: fork on its value.
 static long gcd_fork(const expr& x, const expr& y, i128 M) {
-  if (inf(M) || M > 100000) out_of_bound("gcd of terms with unbounded magnitude");
+  if (inf(M) || M > 4096) {
+    // the interval annotation is too loose: ask the solver for a power-of-16 bound on min(|x|,|y|)
+    // (verdicts, not models: the refinement is the same on every replay of this prefix)
+    bool found = false;
+    for (long K = 16; K <= 65536 && !found; K *= 16) {
+      expr big = (x > ctx().int_val((int64_t)K) || x < ctx().int_val((int64_t)-K)) && (y > ctx().int_val((int64_t)K) || y < ctx().int_val((int64_t)-K));
+      if (!possible(big)) { M = K; found = true; }
+    }
+    if (!found) out_of_bound("gcd of terms with unbounded magnitude");
+  }
   long Ml = (long)M;
   return value_decision(
     [&](long v) {
